@@ -12,7 +12,7 @@ from mc.run import Hang
 
 ID = "C32"
 LEVEL = "exploration"
-WATCHDOG_S = 20.0
+WATCHDOG_S = 60.0  # generous: a case needs ~2 ms; only guards against starvation on a shared machine
 QFULL = (0, 25, 50, 75, 100)
 METHODS = ("linear", "lower", "higher", "nearest", "midpoint")
 NMAX = {"quick": 4, "thorough": 6}
